@@ -623,6 +623,8 @@ fn parent_main(engine: &dyn Engine, tier: Tier) -> ! {
         .collect();
 
     let replay_dir = root.join("replays").join(id);
+    // replay files describe this run only
+    let _ = fs::remove_dir_all(&replay_dir);
     let mut new_violations = Vec::new();
     let mut known_hit = BTreeSet::new();
     for (key, f) in &distinct {
